@@ -56,11 +56,6 @@ Definition unshared (tr : list obs) : Prop :=
 Definition serials_ok (tr : list obs) : Prop := Forall (fun s => s <> 0) (drawn tr) /\ NoDup (drawn tr).
 
 (* ---- histories ---------------------------------------------------------- *)
-Definition is_draw (e : event) : bool := match e with ESend _ _ | EPlain => true | _ => false end.
-Definition draws (h : list event) : N := N.of_nat (length (filter is_draw h)).
-(* the 32-bit counter has not wrapped: fewer than 2^32 - 1 serials were requested *)
-Definition nowrap (h : list event) : Prop := draws h < two32 - 1.
-
 (* events by which a thread waits for call i *)
 Definition block_on (i : nat) (e : event) : bool :=
   match e with EBlock j | EBlockCheck j | EBlockStep j _ => Nat.eqb i j | _ => false end.
@@ -70,20 +65,23 @@ Definition no_block_on (i : nat) (h : list event) : Prop := forallb (fun e => ne
 Definition trace (h : list event) : list obs := snd (run init h).
 Definition trace1 (h : list event) : list obs := snd (run1 init h).
 
+(* the 32-bit counter has not wrapped: fewer than 2^32 - 1 serials have been handed out *)
+Definition nowrap (h : list event) : Prop := N.of_nat (length (drawn (trace h))) < two32 - 1.
+
 (* ---- the claims of the property, at full strength ----------------------- *)
 Definition C17_at_most_once_statement : Prop := forall h, at_most_once (trace h).
 Definition C17_pairing_statement : Prop := forall h, nowrap h -> paired (trace h) /\ unshared (trace h).
-Definition C17_serials_statement : Prop := forall h, nowrap h -> serials_ok (trace h).
+Definition C17_serials_statement : Prop := forall h, N.of_nat (length (drawn (trace h))) <= two32 - 1 -> serials_ok (trace h).
 
 (* "A cancelled call is never notified": if call i has not completed when it is
    cancelled, nothing that happens afterwards completes or notifies it. *)
 Definition C17_cancel_silent_full_statement : Prop :=
-  forall h1 h2 i, nowrap (h1 ++ ECancel i :: h2) -> count_complete i (trace h1) = 0%nat ->
+  forall h1 h2 i, (i < length (call_serials (trace h1)))%nat -> count_complete i (trace h1) = 0%nat ->
     let tr2 := snd (run (fst (run init (h1 ++ [ECancel i]))) h2) in
     count_complete i tr2 = 0%nat /\ count_notify i tr2 = 0%nat.
 
 (* no schedule makes the library hit an assertion or dereference NULL *)
-Definition C17_no_fault_full_statement : Prop := forall h, nowrap h -> fault (fst (run init h)) = 0.
+Definition C17_no_fault_full_statement : Prop := forall h, fault (fst (run init h)) = 0.
 
 (* "... or with a locally generated error if ... the connection closes first":
    a single-threaded program that has sent calls, sees the connection close,
